@@ -83,6 +83,19 @@ let run_case op t =
         | Ok ((true, _), _) -> "format-failed"
         | r -> res_s (fun _ -> "") r in
       (m, if dom_charconv base then join [ "ok"; "1"; str_of_z v ] else "na")
+  | "roundtrip_strto" ->
+      let ty = ity_of (next_str t) in
+      let base = next_int t in let v = next_z t in
+      let m = match to_chars_m ty v (z_of_int base) (prefill 80) with
+        | Ok ((false, e), b) ->
+            let n = int_of_nat e in
+            res_s (fun ((e2, err), w) ->
+                join [ (match err with TiNone -> "ok" | TiInvalid -> "invalid" | TiOverflow -> "overflow");
+                       b2s (int_of_nat e2 = n); str_of_z w ])
+              (strto_integer_m ty (firstn_l n b) (z_of_int base))
+        | Ok ((true, _), _) -> "format-failed"
+        | r -> res_s (fun _ -> "") r in
+      (m, if dom_charconv base then join [ "ok"; "1"; str_of_z v ] else "na")
   | "to_integer" | "to_integer_nc" ->
       let checked = op = "to_integer" in
       let ty = ity_of (next_str t) in
